@@ -1095,7 +1095,9 @@ func (c *DefaultCtx) Params(key string, defaultValue ...string) string {
 			if len(c.values) <= i || len(c.values[i]) == 0 {
 				break
 			}
-			return c.values[i]
+			// values are substrings of the reused path buffer: route them through the
+			// copying conversion like every other accessor, so Immutable holds for them
+			return c.app.getString(utils.UnsafeBytes(c.values[i]))
 		}
 	}
 	return defaultString("", defaultValue)
